@@ -127,7 +127,7 @@ Definition model_table (m : meth) : mfact :=
   | MAssignValue => {| mf_fresh := false; mf_prog := [ODcsin; OAssign SVal; OFlag true] |}
   | MEmplace => {| mf_fresh := false; mf_prog := [OReset; ONew SValFwd; OFlag true] |}   (* new (storage) T(std::forward<Args>(args)...) *)
   | MReset => {| mf_fresh := false; mf_prog := [OIf (CHas This) [ODtor] []; OFlag false] |}
-  | MDcsin => {| mf_fresh := false; mf_prog := [OIf (CNotHas This) [ONewDefault] []] |}
+  | MDcsin => {| mf_fresh := false; mf_prog := [OIf (CNotHas This) [ONewDefault; OFlag true] []] |}
   end.
 
 (* ------------------------------------------------------------------ Optional: comparisons etc. *)
